@@ -37,6 +37,7 @@ func runC17(c *Ctx) {
 	writerGrowRules(c, "C17")
 	// message payloads returned by the read helpers are memory of their own
 	helperReadMessageRules(c, "C17")
+	callerSliceRules(c, "C17")
 }
 
 func c17UnsafeViews(c *Ctx) {
